@@ -89,7 +89,7 @@ PROPS = {
                       job("bridge", "mux", "verif", "c13", 4, extra=["--only", "credit"])],
             "thorough": [job("sim", "mux", "verif", "c03", 16), job("thr", "mux", "verif", "c03", 16, extra=["--engine", "thr"]),
                          job("dev", "mux", "dev", "c03", 8, extra=["--scale", "0.05"]),
-                         job("bridge", "mux", "verif", "c13", 16, extra=["--only", "credit"])],
+                         job("bridge", "mux", "verif", "c13", 16, extra=["--only", "credit", "--scale", "0.2"])],
         },
         "required_targets": {"any": ["writer_blocked_at_zero", "ack_raced_write"]},
         "assumptions": COMMON_ASSUMPTIONS + SIM_ASSUMPTIONS + [
